@@ -42,7 +42,7 @@ pub fn circular_swap2<D: 'static>(permutation: &mut [D], indices: &[usize]) {
 /// Removes the slice specified by the `range` from the `permutation` and inserts it at `index`.
 #[contracts::requires(index < permutation.len())]
 #[contracts::requires(range.start < permutation.len())]
-#[contracts::requires(range.end < permutation.len())]
+#[contracts::requires(range.end <= permutation.len())]
 pub fn translocate_slice<D: 'static>(permutation: &mut [D], range: Range<usize>, index: usize) {
     let chunk_size = range.end - range.start;
     assert!(
@@ -71,7 +71,7 @@ pub fn translocate_slice<D: 'static>(permutation: &mut [D], range: Range<usize>,
 /// It is included for transparency reasons.
 #[contracts::requires(index < permutation.len())]
 #[contracts::requires(range.start < permutation.len())]
-#[contracts::requires(range.end < permutation.len())]
+#[contracts::requires(range.end <= permutation.len())]
 pub fn translocate_slice2<D: Clone + 'static>(
     permutation: &mut [D],
     range: Range<usize>,
